@@ -146,6 +146,14 @@ def consistent_graph(rng, max_nodes=12):
     idx = 0
     while idx < total:
         src = rng.choice(frontier)
+        if rng.random() < 0.18:
+            # an Output used as a mid-graph tap: it has an out-edge, the rest of the path is reachable only through it
+            tap = f"tap_{idx}"
+            nodes[tap] = {"k": "Output", "args": {"output_type": np.array(truth[src][1], dtype=np.int64)}}
+            truth[tap] = (list(truth[src][1]), list(truth[src][1]))
+            erasable[tap] = "output"
+            edges.append((src, tap))
+            src = tap
         rec, out, er = make_node(rng, truth[src][1])
         name = f"{rec['k'].lower()}_{idx}"
         nodes[name] = rec
@@ -159,7 +167,7 @@ def consistent_graph(rng, max_nodes=12):
     has_succ = {a for a, _ in edges}
     k = 0
     for name in list(nodes):
-        if nodes[name]["k"] == "Input":
+        if nodes[name]["k"] in ("Input", "Output"):
             continue
         if (name not in has_succ and rng.random() < 0.8) or rng.random() < 0.05:
             on = "output" if k == 0 else f"out{k}"
@@ -170,7 +178,7 @@ def consistent_graph(rng, max_nodes=12):
             edges.append((name, on))
     # extra edges between shape-compatible nodes: fan-in, residual, recurrent, self-loops, parallel
     names = [n for n in nodes if nodes[n]["k"] != "Input"]
-    srcs = [n for n in nodes if nodes[n]["k"] != "Output"]
+    srcs = [n for n in nodes if nodes[n]["k"] != "Output" or n.startswith("tap_")]
     for _ in range(rng.choice([0, 0, 1, 2, 4])):
         a, b = rng.choice(srcs), rng.choice(names)
         if truth[a][1] == truth[b][0]:
